@@ -118,7 +118,7 @@ def bufGetLoop (w : World) (p : Pid) (b rem got : Nat) : World × Outcome :=
   | none => (w.fail "no such buffer", .ret 0 "")
   | some x =>
     if x.level ≥ rem then
-      let w := { w with bufs := w.bufs.set! b { x with level := x.level - rem } }
+      let w := { w with bufs := w.bufs.set! b { x with level := x.level - rem, getTotal := x.getTotal + rem } }
       let w := recordBuf w b
       let w := signal w x.rear
       let w := if x.level - rem > 0 then signal w x.front else w
@@ -126,7 +126,7 @@ def bufGetLoop (w : World) (p : Pid) (b rem got : Nat) : World × Outcome :=
     else
       let (w, rem, got) :=
         if x.level > 0 then
-          let w := { w with bufs := w.bufs.set! b { x with level := 0 } }
+          let w := { w with bufs := w.bufs.set! b { x with level := 0, getTotal := x.getTotal + x.level } }
           let w := recordBuf w b
           let w := signal w x.rear
           (w, rem - x.level, got + x.level)
@@ -140,7 +140,7 @@ def bufPutLoop (w : World) (p : Pid) (b rem left : Nat) : World × Outcome :=
   | none => (w.fail "no such buffer", .ret 0 "")
   | some x =>
     if x.cap - x.level ≥ rem then
-      let w := { w with bufs := w.bufs.set! b { x with level := x.level + rem } }
+      let w := { w with bufs := w.bufs.set! b { x with level := x.level + rem, putTotal := x.putTotal + rem } }
       let w := recordBuf w b
       let w := signal w x.front
       let w := if x.level + rem < x.cap then signal w x.rear else w
@@ -149,7 +149,7 @@ def bufPutLoop (w : World) (p : Pid) (b rem left : Nat) : World × Outcome :=
       let (w, rem, left) :=
         if x.level < x.cap then
           let grabN := x.cap - x.level
-          let w := { w with bufs := w.bufs.set! b { x with level := x.cap } }
+          let w := { w with bufs := w.bufs.set! b { x with level := x.cap, putTotal := x.putTotal + grabN } }
           let w := recordBuf w b
           let w := signal w x.front
           (w, rem - grabN, left - grabN)
@@ -166,7 +166,7 @@ def oqGetLoop (w : World) (p : Pid) (q : Nat) : World × Outcome :=
   | some x =>
     match x.items with
     | o :: rest =>
-      let w := { w with oqs := w.oqs.set! q { x with items := rest } }
+      let w := { w with oqs := w.oqs.set! q { x with items := rest, gotLog := x.gotLog ++ [o] } }
       let w := recordOQ w q
       let w := signal w x.rear
       (w, .ret sigSuccess s!"obj={o}")
@@ -179,7 +179,7 @@ def oqPutLoop (w : World) (p : Pid) (q obj : Nat) : World × Outcome :=
   | none => (w.fail "no such queue", .ret 0 "")
   | some x =>
     if x.items.length < x.cap then
-      let w := { w with oqs := w.oqs.set! q { x with items := x.items ++ [obj] } }
+      let w := { w with oqs := w.oqs.set! q { x with items := x.items ++ [obj], putLog := x.putLog ++ [obj] } }
       let w := recordOQ w q
       let w := signal w x.front
       (w, .ret sigSuccess "")
@@ -194,7 +194,7 @@ def pqGetLoop (w : World) (p : Pid) (k : Nat) : World × Outcome :=
     if x.queue.count > 0 then
       match HashHeap.dequeue compare_func x.queue with
       | .ok (q', some t) =>
-        let w := { w with pqs := w.pqs.set! k { x with queue := q' } }
+        let w := { w with pqs := w.pqs.set! k { x with queue := q', gotLog := x.gotLog ++ [t.key] } }
         let w := recordPQ w k
         let w := signal w x.rear
         (w, .ret sigSuccess s!"obj={t.item.a}")
@@ -211,7 +211,7 @@ def pqPutLoop (w : World) (p : Pid) (k obj : Nat) (pri : Int) (v : Nat) : World 
     if x.queue.count < x.cap then
       match HashHeap.enqueue compare_func x.queue ⟨obj, 0, 0, 0⟩ 0 0 pri with
       | .ok (q', h) =>
-        let w := { w with pqs := w.pqs.set! k { x with queue := q' } }
+        let w := { w with pqs := w.pqs.set! k { x with queue := q', putLog := x.putLog ++ [h] } }
         let w := setVar w p v h
         let w := recordPQ w k
         let w := signal w x.front
@@ -431,7 +431,10 @@ def execCmd (w : World) (p : Pid) (c : Cmd) : World × Outcome :=
       let h := getVar w p v
       if h = 0 then (w, .skip) else
       match HashHeap.remove compare_func x.queue h with
-      | .ok (q', r) => ({ w with pqs := w.pqs.set! k { x with queue := q' } }, .ret (if r then 1 else 0) "")
+      | .ok (q', r) =>
+        let w := { w with pqs := w.pqs.set! k { x with queue := q', cancelLog := if r then x.cancelLog ++ [h] else x.cancelLog } }
+        let w := if r then signal (recordPQ w k) x.rear else w
+        (w, .ret (if r then 1 else 0) "")
       | .error f => (w.fail s!"pq cancel: {f}", .ret 0 "")
   | .pqReprio k v pri =>
     match w.pqs[k]? with
@@ -514,8 +517,7 @@ def resumeFrame (w : World) (p : Pid) (f : Frame) (sig : Int) : World × Outcome
     | none => (w, .ret sig "")
     | some x =>
       let w := guardWaitLeave w x.guard p sig
-      if sig = sigPreempted then (w, .ret sig "")
-      else if sig ≠ sigSuccess then (poolRollback w p pl initially, .ret sig "")
+      if sig ≠ sigSuccess then (poolRollback w p pl initially, .ret sig "")
       else poolLoop w p pl rem initially preempt
   | .bufGet b rem got =>
     match w.bufs[b]? with
